@@ -34,6 +34,13 @@ def _mods():
     return opt, rw, vc, ir, rep
 
 
+# explicit limits around the element counts the generator produces (4-element constants, 2x3 / 100x100 / 600x600
+# Expand results) and around the defaults (8192 / 512*512), so that a limit given to one parameter but used for the
+# other, or dropped in favour of the default, changes what is folded
+IN_LIMITS = [0, 2, 3, 4, 5, 100, 8192, 9999, 10001, 400000]
+OUT_LIMITS = [0, 3, 5, 6, 7, 100, 8192, 9999, 10000, 10001, 512 * 512, 400000]
+
+
 def gen_options(rng, api: str, model_opset: int) -> dict:
     if api == "optimize":
         o = {}
@@ -43,10 +50,10 @@ def gen_options(rng, api: str, model_opset: int) -> dict:
             o["onnx_shape_inference"] = rng.random() < 0.5
         if rng.random() < 0.4:
             o["stop_if_no_change"] = rng.random() < 0.5
-        if rng.random() < 0.4:
-            o["input_size_limit"] = rng.choice([0, 3, 512])
-        if rng.random() < 0.4:
-            o["output_size_limit"] = rng.choice([0, 3, 512 * 512])
+        if rng.random() < 0.45:
+            o["input_size_limit"] = rng.choice(IN_LIMITS)
+        if rng.random() < 0.45:
+            o["output_size_limit"] = rng.choice(OUT_LIMITS)
         if rng.random() < 0.5:
             o["inline"] = rng.random() < 0.5
         return o
@@ -54,10 +61,10 @@ def gen_options(rng, api: str, model_opset: int) -> dict:
         o = {}
         if rng.random() < 0.5:
             o["onnx_shape_inference"] = rng.random() < 0.5
-        if rng.random() < 0.4:
-            o["input_size_limit"] = rng.choice([0, 3, 512])
-        if rng.random() < 0.4:
-            o["output_size_limit"] = rng.choice([0, 3, 512 * 512])
+        if rng.random() < 0.45:
+            o["input_size_limit"] = rng.choice(IN_LIMITS)
+        if rng.random() < 0.45:
+            o["output_size_limit"] = rng.choice(OUT_LIMITS)
         return o
     if api == "rewrite_rules":
         return {"rules": rng.choice(["cast_cast", "noop", "ruleset"])}
@@ -190,7 +197,8 @@ def observe(api: str, M0: onnx.ModelProto, o: dict) -> dict:
     Q = ir.serde.serialize_model(ri if ret_i == "fresh" else m)
     arg_after = ir.serde.serialize_model(m)
     irs = {"arg_mutated": _bytes(arg_after) != _bytes(NM), "ret": ret_i, "input_proto_mutated": _bytes(Mi) != before}
-    out = {"M": M0, "P": P, "Q": Q, "NM": NM, "proto": proto, "ir": irs, "err_p": err_p, "err_i": err_i}
+    out = {"M": M0, "P": P, "Q": Q, "NM": NM, "proto": proto, "ir": irs, "err_p": err_p, "err_i": err_i,
+           "Mp": Mp, "Mi": Mi}
     if fns is not None:
         out["fns_mutated"] = [_bytes(f) for f in fns] != fns_before
     return out
@@ -205,3 +213,80 @@ def run_inline(M0: onnx.ModelProto) -> dict:
     after = ir.serde.serialize_model(m)
     return {"ret": "none" if r is None else type(r).__name__, "NM": NM, "after": after,
             "had_functions": len(M0.functions) > 0}
+
+
+# ---------------------------------------------------------------------------------- option routing
+
+
+def observe_routing(M0: onnx.ModelProto) -> dict:
+    """Which caller option reaches which parameter of the IR-level implementation, per API and entry form.
+
+    The IR-level callee is replaced by a recorder for the duration of one call; every option is given a
+    value that spells its own name, so `{"output_size_limit": "input_size_limit"}` means the callee's
+    output_size_limit received what the caller passed as input_size_limit.  A parameter the wrapper does not
+    pass at all is reported as "<not passed>".
+    """
+    import inspect
+
+    opt, rw, vc, ir, rep = _mods()
+    import onnxscript.optimizer._constant_folding as cf
+
+    out: dict = {}
+    # ---- optimize -> optimize_ir
+    keys = ["num_iterations", "onnx_shape_inference", "stop_if_no_change", "input_size_limit", "output_size_limit", "inline"]
+    real = opt.optimize_ir
+    params = list(inspect.signature(real).parameters)
+    for entry in ("proto", "ir"):
+        seen: dict = {}
+
+        def rec(model, *args, **kwargs):
+            for name, v in zip(params[1:], args):
+                seen[name] = v
+            seen.update(kwargs)
+
+        opt.optimize_ir = rec
+        try:
+            arg = copy.deepcopy(M0) if entry == "proto" else ir.serde.deserialize_model(copy.deepcopy(M0))
+            opt.optimize(arg, **{k: "opt:" + k for k in keys})
+        finally:
+            opt.optimize_ir = real
+        out[("optimize", entry)] = {k: (seen[k][4:] if isinstance(seen.get(k), str) and seen[k].startswith("opt:") else "<not passed>" if k not in seen else repr(seen[k])) for k in keys}
+    # ---- fold_constants -> constant_folding.fold_constants (whole kwargs)
+    real_fc = cf.fold_constants
+    for entry in ("proto", "ir"):
+        seen = {}
+
+        def rec_fc(model, *args, **kwargs):
+            seen["args"], seen["kwargs"] = args, dict(kwargs)
+            return ir.passes.PassResult(model, False)
+
+        cf.fold_constants = rec_fc
+        try:
+            arg = copy.deepcopy(M0) if entry == "proto" else ir.serde.deserialize_model(copy.deepcopy(M0))
+            kw = {"onnx_shape_inference": "opt:a", "input_size_limit": "opt:b", "output_size_limit": "opt:c"}
+            opt.fold_constants(arg, **kw)
+        finally:
+            cf.fold_constants = real_fc
+        out[("fold_constants", entry)] = {"kwargs": "kwargs" if seen.get("kwargs") == kw and not seen.get("args") else repr(seen)}
+    # ---- convert_version -> ConvertVersionPass(target_version=, fallback=)
+    real_cv = vc.ConvertVersionPass
+    for entry in ("proto", "ir"):
+        seen = {}
+
+        class Rec:
+            def __init__(self, *args, **kwargs):
+                for name, v in zip(["target_version", "fallback"], args):
+                    seen[name] = v
+                seen.update(kwargs)
+
+            def __call__(self, model):
+                return ir.passes.PassResult(model, False)
+
+        vc.ConvertVersionPass = Rec
+        try:
+            arg = copy.deepcopy(M0) if entry == "proto" else ir.serde.deserialize_model(copy.deepcopy(M0))
+            vc.convert_version(arg, "opt:target_version", fallback="opt:fallback")
+        finally:
+            vc.ConvertVersionPass = real_cv
+        out[("convert_version", entry)] = {k: (seen[k][4:] if isinstance(seen.get(k), str) and seen[k].startswith("opt:") else "<not passed>" if k not in seen else repr(seen[k])) for k in ("target_version", "fallback")}
+    return out
